@@ -283,7 +283,8 @@ PICK_RULE_TEXT = (
     "variable was bound, the template is inside a loop over the collection, or under conditions (truth table over their atoms; `and` / "
     "`or` / inline-if count, and so does an arm that ended the iteration with continue / break) that leave no length below the one "
     "needed - the collection or its length tested, its length compared with a constant; `.values()` / `| list` / `| sort` ... of a "
-    "collection are as empty as the collection - or the picked element itself was tested (truthy / `is defined`). Otherwise jinja2 "
+    "collection are as empty as the collection - or the picked element itself was tested (truthy / `is defined`); a collection that is "
+    "(part of) a macro's argument may instead be known to hold it at every call of the macro. Otherwise jinja2 "
     "answers the pick with Undefined and the dereference raises UndefinedError: the build stops between two files, and the unrelated "
     "modules after it are never written")
 
@@ -292,10 +293,12 @@ def _picked_elements_exist(rep: Report, ctx: Any) -> None:
     from . import c08_picks
 
     n = 0
-    for name, ti in sorted(ctx.jinja.templates.items()):
+    found = c08_picks.sites_of({name: ti.tree for name, ti in sorted(ctx.jinja.templates.items())})
+    for name in sorted({st.template for st in found}):
         by_key: dict[str, list[Any]] = {}
-        for st in c08_picks.sites(name, ti.tree):
-            by_key.setdefault(st.key, []).append(st)
+        for st in found:
+            if st.template == name:
+                by_key.setdefault(st.key, []).append(st)
         for key, sts in sorted(by_key.items()):
             n += len(sts)
             bad = [st for st in sts if not st.ok]
